@@ -1,38 +1,61 @@
 """Run every check against scratch copies with behaviour-preserving refactorings applied; anything reported is a false alarm.
-usage: python -m verif.tools.tryrefactors <dir>/_refactor   (directories <n>/patch.diff)"""
-import glob, os, shutil, subprocess, sys, tempfile
+usage: python -m verif.tools.tryrefactors [<dir> ...]   (directories <n>/patch.diff; default /verif/refactors)"""
+import concurrent.futures, glob, os, shutil, subprocess, sys, tempfile
 from verif.selftest.runner import make_copy, evaluate
 
+PROPS = ["C%02d" % i for i in range(1, 21)]
+HERE = os.path.dirname(os.path.dirname(os.path.dirname(os.path.abspath(__file__))))
+
+
+def one(args):
+    patch, base, repo_root = args
+    tmp = tempfile.mkdtemp(prefix="skrf_")
+    try:
+        make_copy(repo_root, tmp)
+        r = subprocess.run(["patch", "-p1", "-s", "-i", patch], cwd=tmp, capture_output=True, text=True)
+        if r.returncode != 0:
+            return patch, None, "PATCH FAILED %s" % r.stdout[:200]
+        msgs = []
+        for p in PROPS:
+            res = evaluate(p, tmp)
+            for v in res["violated"]:
+                if v not in base[p]["violated"]:
+                    msgs.append("  %s VIOLATED [%s] %s\n        %s" % (p, v[0], v[1][:140], res["detail"].get("%s|%s" % v, "")[:400]))
+            for v in res["unknown"]:
+                if v not in base[p]["unknown"]:
+                    msgs.append("  %s unknown  [%s] %s\n        %s" % (p, v[0], v[1][:140], res["detail"].get("%s|%s" % v, "")[:400]))
+        return patch, msgs, None
+    finally:
+        shutil.rmtree(tmp, ignore_errors=True)
+
+
+def run(roots, repo_root="/repo", jobs=16, out=sys.stdout):
+    base = {p: evaluate(p, repo_root) for p in PROPS}
+    patches = []
+    for root in roots:
+        patches += sorted(glob.glob(os.path.join(root, "*", "patch.diff")))
+    bad = failed = 0
+    results = []
+    with concurrent.futures.ProcessPoolExecutor(max_workers=jobs) as ex:
+        for patch, msgs, err in ex.map(one, [(p, base, repo_root) for p in patches]):
+            if err:
+                print(err, patch, file=out)
+                failed += 1
+                continue
+            print(("FALSE-ALARM? " if msgs else "silent       ") + patch, file=out)
+            for m in msgs:
+                print(m, file=out)
+            bad += bool(msgs)
+            results.append((patch, msgs))
+    print("%d refactorings, %d raised something, %d did not apply" % (len(patches), bad, failed), file=out)
+    return len(patches), bad, failed, results
+
+
 def main() -> int:
-    props = ["C%02d" % i for i in range(1, 21)]
-    base = {p: evaluate(p, "/repo") for p in props}
-    bad = 0
-    for root in sys.argv[1:]:
-        for patch in sorted(glob.glob(os.path.join(root, "*", "patch.diff"))):
-            tmp = tempfile.mkdtemp(prefix="skrf_")
-            try:
-                make_copy("/repo", tmp)
-                r = subprocess.run(["patch", "-p1", "-s", "-i", patch], cwd=tmp, capture_output=True, text=True)
-                if r.returncode != 0:
-                    print("PATCH FAILED", patch, r.stdout[:200])
-                    continue
-                msgs = []
-                for p in props:
-                    res = evaluate(p, tmp)
-                    for v in res["violated"]:
-                        if v not in base[p]["violated"]:
-                            msgs.append("  %s VIOLATED [%s] %s\n        %s" % (p, v[0], v[1][:140], res["detail"].get("%s|%s" % v, "")[:260]))
-                    for v in res["unknown"]:
-                        if v not in base[p]["unknown"]:
-                            msgs.append("  %s unknown  [%s] %s\n        %s" % (p, v[0], v[1][:140], res["detail"].get("%s|%s" % v, "")[:260]))
-                print(("FALSE-ALARM? " if msgs else "silent       ") + patch)
-                for m in msgs:
-                    print(m)
-                bad += bool(msgs)
-            finally:
-                shutil.rmtree(tmp, ignore_errors=True)
-    print("%d refactorings raised something" % bad)
+    roots = sys.argv[1:] or [os.path.join(HERE, "refactors")]
+    n, bad, failed, _ = run(roots)
     return 1 if bad else 0
+
 
 if __name__ == "__main__":
     sys.exit(main())
